@@ -72,6 +72,9 @@ pub enum Strategy {
     /// non-preemptive in index order, except: `victim` is held at its `at`-th scheduling point
     /// while the others run for `len` steps (or to completion), then resumes
     Delay { victim: usize, at: u32, len: u32 },
+    /// starvation: before every step of `victim`, the other threads get `burst` steps (as long as
+    /// any of them can run) - the victim keeps losing races (retry loops, compare-exchange)
+    Starve { victim: usize, burst: u32 },
     /// follow the given thread choices step by step; afterwards continue non-preemptively
     /// (keep the running thread while it is runnable, else the lowest-index runnable one)
     Script { choices: Vec<u8> },
@@ -83,6 +86,7 @@ impl Strategy {
             Strategy::Rw => "rw".into(),
             Strategy::Pct { depth, est_len } => format!("pct(d={},n={})", depth, est_len),
             Strategy::Delay { victim, at, len } => format!("delay(t={},k={},m={})", victim, at, len),
+            Strategy::Starve { victim, burst } => format!("starve(t={},b={})", victim, burst),
             Strategy::Script { choices } => format!("script({})", choices.iter().map(|c| c.to_string()).collect::<Vec<_>>().join("")),
         }
     }
@@ -133,6 +137,20 @@ impl Chooser {
                     }
                 }
                 *runnable.iter().max_by_key(|w| self.prio[**w]).unwrap()
+            }
+            Strategy::Starve { victim, burst } => {
+                let v = *victim;
+                let others: Vec<usize> = runnable.iter().copied().filter(|w| *w != v).collect();
+                if !runnable.contains(&v) {
+                    others[self.rng.usize_below(others.len())]
+                } else if others.is_empty() || self.held_steps >= *burst {
+                    self.held_steps = 0;
+                    v
+                } else {
+                    self.held_steps += 1;
+                    // let the others take turns completing their calls
+                    others[(self.held_steps as usize) % others.len()]
+                }
             }
             Strategy::Script { choices } => {
                 let i = (step - 1) as usize;
